@@ -9,6 +9,7 @@ import (
 
 	"github.com/circlefin/noble-cctp/x/cctp/types"
 	sdk "github.com/cosmos/cosmos-sdk/types"
+	"github.com/cosmos/cosmos-sdk/types/bech32"
 
 	"verif/harness/attest"
 	"verif/harness/chain"
@@ -367,9 +368,14 @@ func fail(soft bool, why ...string) *Expect { return &Expect{V: MustFail, Why: w
 
 func keyStr(prefix string, k []byte) string { return prefix + string(k) }
 
+// validAddr: "syntactically valid address" (D6) spelled out independently of the SDK's process-wide configuration
+// (which a module can change): bech32 with the account prefix and a payload of 1..255 bytes.
 func validAddr(s string) bool {
-	_, err := sdk.AccAddressFromBech32(s)
-	return err == nil
+	if len(strings.TrimSpace(s)) == 0 {
+		return false
+	}
+	hrp, bz, err := bech32.DecodeAndConvert(s)
+	return err == nil && hrp == "noble" && len(bz) > 0 && len(bz) <= 255
 }
 
 // Predict returns what the documentation requires of msg in state m. It does not
